@@ -81,6 +81,9 @@ def one_exec(cfg):
                         apply_mut(ws, rel, mut, CONTENTS[TREES["A"][rel]])
                 if cfg["untracked"]:
                     write_file(os.path.join(ws, "s", "untracked"), b"untracked-user-file")
+                if cfg.get("dangling"):
+                    # the user (or a cleaned-up cache) left a dangling symbolic link in the directory
+                    os.symlink(w.p("nowhere"), os.path.join(ws, "s", "dangling-link"))
                 tname = cfg["target"]
                 target = load_obj(odb, "x" if tname == "file:x" else tname)
             loss = cfg.get("cacheloss", "none")
@@ -201,12 +204,19 @@ def run_case(case):
             combos.append((target, vec, untracked, relink, loss, True, False))
         if loss == "corrupt-x":
             combos.append((target, vec, untracked, relink, loss, False, True))
-    for target, vec, untracked, relink, loss, trail, ro in combos:
+    combos = [c + (False,) for c in combos]
+    for target, vec, untracked, relink, loss, trail, ro, _d in list(combos):
+        if loss == "none" and target in ("A", "B", "S") and not untracked and not trail and not ro \
+                and ("uncached" in vec or all(m == "same" for m in vec)):
+            combos.append((target, vec, untracked, relink, loss, trail, ro, True))
+    for target, vec, untracked, relink, loss, trail, ro, dangling in combos:
         if True:
             if True:
                 if True:
                     cfg = dict(base, target=target, vec=list(vec), untracked=untracked, relink=relink,
-                               cacheloss=loss, trail=trail, ro=ro)
+                               cacheloss=loss, trail=trail, ro=ro, dangling=dangling)
+                    if dangling:
+                        res["vac"]["dangling_link_runs"] = res["vac"].get("dangling_link_runs", 0) + 1
                     if trail:
                         res["vac"]["trailing_separator_runs"] = res["vac"].get("trailing_separator_runs", 0) + 1
                     if ro:
@@ -232,6 +242,8 @@ def run_case(case):
                         res["vac"]["kind_change_runs"] += 1
                     res["outcomes"].add(repr((info["outcome"], sorted(v[0] for v in viol))))
                     for sig, detail in viol:
+                        if dangling:
+                            sig = sig + "/dangling-link-in-workspace"
                         if sig not in sigs:
                             sigs.add(sig)
                             res["viol"].append((sig, detail, dict(cfg, part="checkout")))
@@ -532,7 +544,8 @@ def replay(case):
     if case.get("part") == "inflight":
         return run_inflight(case["cfg"], case["at"])[0]
     cfg = {k: v for k, v in case.items() if k != "part"}
-    return one_exec(cfg)[0]
+    v = one_exec(cfg)[0]
+    return [(s_ + "/dangling-link-in-workspace", d_) for s_, d_ in v] if cfg.get("dangling") else v
 
 
 def run(ctx):
@@ -561,7 +574,7 @@ def run(ctx):
     ]
     ctx.require("refusals", "uncached_vectors", "completed", "kind_change_runs", "cache_loss_runs", "cleanups_that_removed",
                 "link_histories", "swapped_vectors", "inflight_edits", "trailing_separator_runs", "read_only_cache_runs",
-                "trailing_root_histories")
+                "trailing_root_histories", "dangling_link_runs")
     cs = []
     for kind in ("local", "base"):
         for link in ("copy", "hardlink", "symlink"):
